@@ -116,6 +116,27 @@ def o_roundtrip(L: int, spec: Dict[str, Any], seq: str, p: int, a: int, b: int, 
     return True
 
 
+def o_equal(L: int, spec: Dict[str, Any], p: int, a: int, b: int, amb: bool, plus: bool, excl=()) -> bool:
+    """"parses back to an *equal* annotation" by the library's own ==/!= (Counter / Mod.__hash__ / Mod.__lt__ inside, which
+    CrossHair cannot trace: everything is realised first and the comparison runs untraced - a solver-driven enumeration of the
+    positions and flags)."""
+    import crosshair
+    from crosshair.tracers import NoTracing
+    p, a, b, amb, plus = (crosshair.realize(x) for x in (p, a, b, amb, plus))
+    seq = "PEPTIDEK"[:L]
+    with NoTracing():
+        ann = build_chain(seq, spec, p, a, b, amb)
+        text = ann.serialize(include_plus=plus)
+        back = parse(text)
+        try:
+            eq = (back == ann, ann == back, back != ann, ann == ann.copy())
+        except Exception as e:       # an equality test must answer, not raise
+            return _fail(why="== raised", text=text, error=f"{type(e).__name__}: {e}")
+    if eq != (True, True, False, True):
+        return _fail(why="the annotation parsed back from its own serialization is not == to it", text=text, eq=eq)
+    return True
+
+
 def o_multi(L: int, specs: List[Dict[str, Any]], seqs: str, c0: bool, c1: bool, plus: bool, excl=()) -> bool:
     """2-3 chains joined by '+' (False) or '//' (True)"""
     n = len(specs)
